@@ -9,7 +9,7 @@ import warnings
 from hypothesis import strategies as st
 
 from .. import loopback as lb, svc
-from ..common import Violation, HarnessError, hyp_search, parallel, lib_frame
+from ..common import Violation, HarnessError, hyp_search, parallel, lib_frame, quiet_warnings
 
 LEVEL = 'exploration'
 PROP = 'C15'
@@ -364,7 +364,7 @@ def one(ctx, case, label):
 
 
 def shard(ctx, job):
-    warnings.simplefilter('ignore')
+    quiet_warnings()
     for case in job.get('fixed', []):
         try:
             one(ctx, case, 'fixed')
@@ -377,7 +377,7 @@ def shard(ctx, job):
 
 
 def run(ctx):
-    warnings.simplefilter('ignore')
+    quiet_warnings()
     ctx.rule = ('Hypothesis-generated data sets (PN/LO/UI/US/OB/OW elements incl. odd lengths, nested sequences to depth '
                 '3, bulk data up to ~30 fragments) x 3 transfer syntaxes (each proposed alone) x asymmetric pairs of '
                 'maximum PDU lengths from {128..262144} (fixed cases up to 4 MiB with MB-sized data sets) x Dataset-in-memory or Part-10 file source x temp-file / '
@@ -395,7 +395,7 @@ def run(ctx):
 
 
 def replay(case):
-    warnings.simplefilter('ignore')
+    quiet_warnings()
     try:
         run_case(case)
     except lb.Inconclusive as inc:
